@@ -66,6 +66,8 @@ def run_case(ctx, case, fonts, ds, call, expect_raise=False, nontriv=True):
             raised = e
             if not expect_raise and attempt == 1:
                 ctx.klass("raised:" + type(e).__name__)
+                ctx.notes.setdefault("raised", {}).setdefault(type(e).__name__ + ": " + str(e)[:160], []).append(
+                    "%s %s" % (case.get("function"), case.get("options", case.get("fixture"))))
         after = snapshot_all(fonts, ds)
         if after != before:
             d = snap.diff(before, after)
@@ -127,13 +129,25 @@ def explore(ctx):
     for i in range(ctx.budget(18, 120)):
         lib = ["ufoLib2", "defcon"][i % 2]
         n = rng.choice([2, 2, 3])
-        ds, fonts, masters = dsgen.family(rng, n, lib)
         fn = ["compileVariableTTF", "compileVariableCFF2", "compileInterpolatableTTFsFromDS", "compileInterpolatableOTFsFromDS",
               "compileVariableTTFs", "compileVariableCFF2s", "compileInterpolatableTTFs"][i % 7]
+        vf_info = None
+        if i % 3 == 2:
+            fn = ["compileVariableTTFs", "compileVariableCFF2s"][(i // 3) % 2]
+            lib = ["ufoLib2", "defcon"][(i // 6) % 2]
+        if fn in ("compileVariableTTFs", "compileVariableCFF2s") and (i % 3 == 2 or rng.random() < 0.5):
+            # format-5 document: <variable-font> elements carrying public.fontInfo overrides (applied by InfoCompiler)
+            pool = {"familyName": "Fam Variable", "postscriptFontName": "FamVF-Regular", "trademark": "vf tm", "versionMajor": 3,
+                    "openTypeOS2Type": [2], "italicAngle": -8, "openTypeOS2Panose": [2, 0, 5, 3, 0, 0, 0, 0, 0, 0],
+                    "openTypeNameRecords": [{"nameID": 25, "platformID": 3, "encodingID": 1, "languageID": 1033, "string": "FamVar"}],
+                    "openTypeGaspRangeRecords": [{"rangeMaxPPEM": 65535, "rangeGaspBehavior": [0, 1]}]}
+            vf_info = [{k: v for k, v in pool.items() if rng.random() < 0.6} for _ in range(rng.choice([1, 2]))]
+        ds, fonts, masters = dsgen.family(rng, n, lib, vf_info=vf_info)
         opts = {}
-        if rng.random() < 0.3 and fn != "compileInterpolatableTTFs":
+        if rng.random() < 0.3 and fn.startswith("compileVariable"):
             opts["variableFeatures"] = rng.random() < 0.5
-        if rng.random() < 0.3:
+        if rng.random() < 0.3 and not (fn.startswith("compileVariable") and opts.get("variableFeatures", True)):
+            # (with variable features a filter that adds anchors makes the mark writer raise: finding F14, C10)
             for f in fonts:
                 f.lib[FILTERS_KEY] = [{"name": "propagateAnchors", "pre": True}]
         if rng.random() < 0.3:
@@ -141,7 +155,7 @@ def explore(ctx):
         if rng.random() < 0.3 and "TTF" in fn:
             opts["flattenComponents"] = True
         case = {"function": fn, "options": jsonable(opts), "lib": lib, "masters": n, "font": jsonable(masters[0])}
-        ctx.klass("family:" + fn)
+        ctx.klass("family:" + fn + ("+vf-info" if vf_info else ""))
         if fn == "compileInterpolatableTTFs":
             run_case(ctx, case, fonts, ds, lambda: list(ufo2ft.compileInterpolatableTTFs(fonts, **opts)))
         else:
